@@ -56,6 +56,10 @@ type Discarded struct {
 
 type StateCase struct {
 	Blocks []SBlock `json:"blocks"`
+	// Restarts: every long-lived object of the node is thrown away and rebuilt on the same database before
+	// every block (StateDB + trie database at the state level, the Blockchain object on the chain paths): a
+	// process restart between two updates
+	Restarts bool `json:"restarts,omitempty"`
 }
 
 // ---- abstract state: the definition the property talks about ----------------------------------
@@ -231,10 +235,12 @@ func oldRootFixed(newState bool) bool {
 var oldFixedVariant [2]bool // [new backend, deprecated backend]
 
 func diffLine(op string, id int, b *SBlock) string {
-	pre := 0
-	if pre014(b.Version) {
-		pre = 1
-	}
+	return strings.TrimSpace(fmt.Sprintf("%s %d %s", op, id, diffItems(b)))
+}
+
+// diffItems: the version of the block as a STRING (`v=<version>`: the Lean model parses it itself,
+// Version.pre014?) followed by the items of the diff in application order.
+func diffItems(b *SBlock) string {
 	var items []string
 	add := func(tag string, m map[string]string) {
 		ks := make([]string, 0, len(m))
@@ -269,8 +275,76 @@ func diffLine(op string, id int, b *SBlock) string {
 		}
 		items = append(items, "S:"+a+":"+strings.Join(kvs, ","))
 	}
-	return strings.TrimSpace(fmt.Sprintf("%s %d %d %s", op, id, pre, strings.Join(items, " ")))
+	return strings.TrimSpace("v=" + b.Version + " " + strings.Join(items, " "))
 }
+
+// model script for the state model on tries that are reopened from the node database for every block
+// (ModelStateL.lean): what core/state really does (state.New per block)
+func stateLModelLines(c *StateCase, id int) (lines []string, blockIdx []int) {
+	lines = []string{fmt.Sprintf("tnew %d 1", id)}
+	for n := range c.Blocks {
+		blockIdx = append(blockIdx, len(lines))
+		lines = append(lines, fmt.Sprintf("tblock %d 1 %s", id, diffItems(&c.Blocks[n])))
+	}
+	return lines, blockIdx
+}
+
+// model script for the chain model (ModelChain.lean), Finalise path
+func chainFinModelLines(c *StateCase, id int, fixed, purge bool) (lines []string, blockIdx []int) {
+	b2i := func(b bool) int {
+		if b {
+			return 1
+		}
+		return 0
+	}
+	lines = []string{fmt.Sprintf("cnew %d %d %d", id, b2i(fixed), b2i(purge))}
+	for n := range c.Blocks {
+		blockIdx = append(blockIdx, len(lines))
+		lines = append(lines, fmt.Sprintf("cfin %d %s", id, diffItems(&c.Blocks[n])))
+	}
+	return lines, blockIdx
+}
+
+// ... Store path, following the real run: every block first with a wrong new root (must be rejected),
+// then with the stored previous root as old root; a block the node rejected like that is sent again with the
+// old root recomputed under the block's own version (`cur`). idx[n] = line of the `prev bad` request.
+func chainStoreModelLines(c *StateCase, id int, fixed, purge bool, t *trace) (lines []string, blockIdx []int) {
+	b2i := func(b bool) int {
+		if b {
+			return 1
+		}
+		return 0
+	}
+	rej := map[int]bool{}
+	for _, n := range t.OldRej {
+		rej[n] = true
+	}
+	lines = []string{fmt.Sprintf("cnew %d %d %d", id, b2i(fixed), b2i(purge))}
+	for n := 0; n < t.StoreBlocks && n < len(c.Blocks); n++ {
+		blockIdx = append(blockIdx, len(lines))
+		it := diffItems(&c.Blocks[n])
+		ver, rest, _ := strings.Cut(it, " ")
+		lines = append(lines, strings.TrimSpace(fmt.Sprintf("cstore %d %s prev bad %s", id, ver, rest)))
+		lines = append(lines, strings.TrimSpace(fmt.Sprintf("cstore %d %s prev ok %s", id, ver, rest)))
+		if rej[n] {
+			lines = append(lines, strings.TrimSpace(fmt.Sprintf("cstore %d %s cur ok %s", id, ver, rest)))
+		}
+	}
+	return lines, blockIdx
+}
+
+// finaliseKeepsOldRoot probes which updateStateRoots the tree under test has: the repaired one keeps the
+// caller's OldRoot (selects the variant of the chain model).
+func finaliseKeepsOldRoot(newState bool) bool {
+	c := &StateCase{Blocks: []SBlock{
+		{Version: "0.13.2", Deployed: map[string]string{"abc": "c1a55"}},
+		{Version: "0.14.0", Nonces: map[string]string{"abc": "1"}},
+	}}
+	t := runChain(c, newState)
+	return t.Err == "" && len(t.OldStored) == 0
+}
+
+var finaliseFixedVariant [2]bool // [new backend, deprecated backend]
 
 // legacyPurges probes which treatment of an emptied system contract the deprecated backend of
 // the tree under test has (the Lean model follows the code: `purge` flag).
@@ -346,6 +420,9 @@ func runNewState(c *StateCase) (tr trace) {
 		for n := range c.Blocks {
 			b := &c.Blocks[n]
 			hdr := &core.Header{Number: uint64(n), ProtocolVersion: b.Version}
+			if c.Restarts {
+				sdb = state.NewStateDB(disk, triedb.New(disk, nil))
+			}
 			for di := range b.Before {
 				d := &b.Before[di]
 				before := dumpDB(disk)
@@ -544,6 +621,9 @@ func runChain(c *StateCase, newState bool) (tr trace) {
 		parent := felt.Zero
 		for n := range c.Blocks {
 			b := &c.Blocks[n]
+			if c.Restarts && n > 0 {
+				bc = blockchain.New(disk, &networks.Mainnet, blockchain.WithNewState(newState))
+			}
 			for di := range b.Before {
 				d := &b.Before[di]
 				before := dumpDB(disk)
@@ -576,10 +656,14 @@ func runChain(c *StateCase, newState bool) (tr trace) {
 			// the state update the node stores for block n must start at the root it stored for block n-1
 			if stored, err := bc.StateUpdateByNumber(uint64(n)); err != nil {
 				return fmt.Errorf("block %d: stored state update: %w", n, err)
-			} else if !stored.OldRoot.Equal(&prevRoot) {
-				tr.OldStored = append(tr.OldStored, n)
-			} else if !stored.NewRoot.Equal(blk.GlobalStateRoot) {
-				return fmt.Errorf("block %d: stored StateUpdate.NewRoot %s differs from the header root %s", n, stored.NewRoot.String(), blk.GlobalStateRoot.String())
+			} else {
+				tr.StoredOld = append(tr.StoredOld, feltHex(stored.OldRoot))
+				tr.StoredNew = append(tr.StoredNew, feltHex(stored.NewRoot))
+				if !stored.OldRoot.Equal(&prevRoot) {
+					tr.OldStored = append(tr.OldStored, n)
+				} else if !stored.NewRoot.Equal(blk.GlobalStateRoot) {
+					return fmt.Errorf("block %d: stored StateUpdate.NewRoot %s differs from the header root %s", n, stored.NewRoot.String(), blk.GlobalStateRoot.String())
+				}
 			}
 			tr.Roots = append(tr.Roots, feltHex(blk.GlobalStateRoot))
 			prevRoot = *blk.GlobalStateRoot
@@ -609,6 +693,9 @@ func runStore(c *StateCase, newState bool, roots []string) (tr trace) {
 		for n := range c.Blocks {
 			if n >= len(roots) {
 				break
+			}
+			if c.Restarts && n > 0 {
+				bc = blockchain.New(disk, &networks.Mainnet, blockchain.WithNewState(newState))
 			}
 			b := &c.Blocks[n]
 			old := prevRoot
@@ -644,11 +731,47 @@ func runStore(c *StateCase, newState bool, roots []string) (tr trace) {
 					tr.Leak = fmt.Sprintf("block %d: a rejected Blockchain.Store changed the database: %s", n, diff)
 				}
 			}
+			tr.StoreBlocks = n + 1
 			if err := bc.Store(blk, comms, su, classes); err != nil {
 				// (judged by the caller: the same block may be rejected by the state layer for its stored old root)
 				tr.OldRej = append(tr.OldRej, n)
 				tr.OldRejErr = err.Error()
-				return nil
+				// the same block with the old root recomputed under ITS version (what the unchanged tree verifies
+				// against): if that is accepted the history goes on
+				hs, closer, herr := bc.HeadState()
+				if herr != nil {
+					return nil
+				}
+				cm, isCm := hs.(interface {
+					Commitment(string) (felt.Felt, error)
+				})
+				if !isCm {
+					_ = closer()
+					return nil
+				}
+				cur, cerr := cm.Commitment(b.Version)
+				_ = closer()
+				if cerr != nil || cur.Equal(&prevRoot) {
+					return nil
+				}
+				su3, classes3 := toUpdate(b, &cur)
+				su3.NewRoot = &nr
+				su3.BlockHash = &h
+				blk3 := simBlock(uint64(n), b.Version)
+				p3 := parent
+				blk3.ParentHash = &p3
+				blk3.GlobalStateRoot = &nr
+				blk3.Hash = &h
+				if err := bc.Store(blk3, comms, su3, classes3); err != nil {
+					return nil
+				}
+				su = su3
+			}
+			if stored, err := bc.StateUpdateByNumber(uint64(n)); err != nil {
+				return fmt.Errorf("block %d: stored state update: %w", n, err)
+			} else {
+				tr.StoredOld = append(tr.StoredOld, feltHex(stored.OldRoot))
+				tr.StoredNew = append(tr.StoredNew, feltHex(stored.NewRoot))
 			}
 			head, err := bc.HeadsHeader()
 			if err != nil {
@@ -942,7 +1065,7 @@ func brokenPrimitiveState(c *StateCase, real []string) string {
 
 // ascending; "" parses as 0.0.0, "0.14" as 0.14.0; "0.9.9" / "0.13.10" are string-order traps; "1.0.0" is not
 // supported by the chain layer (state layer only)
-var versions = []string{"", "0.9.9", "0.13.1", "0.13.2", "0.13.6", "0.13.10", "0.14", "0.14.0", "0.14.1", "1.0.0"}
+var versions = []string{"", "0.9.9", "0.13.1", "0.13.1.1", "0.13.2", "0.13.6", "0.13.10", "0.14", "0.14.0", "0.14.1", "1.0.0"}
 
 func pickVersionFrom(r *lib.RNG, from int) (string, int) {
 	// the common ones more often
@@ -957,6 +1080,7 @@ func pickVersionFrom(r *lib.RNG, from int) (string, int) {
 }
 
 type statePools struct {
+	noMigrate            bool // no CASM-hash migrations in this history (migrations keep a history off the chain paths)
 	addrs, keys, classes []string
 	deployClasses        []string // class hashes of deployed contracts: any felt, also >= 2^251
 }
@@ -975,7 +1099,22 @@ func genPools(r *lib.RNG) *statePools {
 		p.keys = append(p.keys, k.Text(16))
 	}
 	p.classes = []string{"c1a55", "c1a56", randBits(r, 250).Text(16)}
-	p.deployClasses = append([]string{feltPm1, felt2p251}, p.classes...)
+	// more class hashes (class-trie keys), sharing prefixes: a block may declare / migrate several at once
+	for _, k := range genKeyPool(r, 251, r.Range(4, 9)) {
+		if k.Sign() != 0 {
+			p.classes = append(p.classes, k.Text(16))
+		}
+	}
+	p.deployClasses = append([]string{feltPm1, felt2p251}, p.classes[:3]...)
+	return p
+}
+
+func permOf(r *lib.RNG, n int) []int {
+	p := make([]int, n)
+	for i := range p {
+		p[i] = i
+	}
+	lib.Shuffle(r, p)
 	return p
 }
 
@@ -1040,12 +1179,41 @@ func genBlock(r *lib.RNG, a *absState, p *statePools, ver string) SBlock {
 	if r.Chance(1, 8) {
 		b.NoDef = map[string]string{lib.Pick(r, []string{"c1a5d", "c1a5e"}): "ca5a1"}
 	}
-	if r.Chance(1, 3) {
-		ch := lib.Pick(r, p.classes)
-		if _, ok := a.classes[ch]; !ok {
-			b.Declared = map[string]string{ch: lib.Pick(r, []string{"ca5a1", "ca5a2", feltPm1})}
-		} else if r.Chance(1, 2) {
-			b.Migrated = map[string]string{ch: lib.Pick(r, []string{"ca5b1", "ca5b2"})}
+	// class trie: 0..5 Sierra declarations and 0..3 CASM-hash migrations per block, every leaf value distinct
+	// (several class-trie leaves written by ONE Update)
+	casmSeq := 0
+	casm := func(prefix string) string {
+		casmSeq++
+		if casmSeq == 3 && r.Chance(1, 3) {
+			return feltPm1
+		}
+		return fmt.Sprintf("%s%x%04x", prefix, casmSeq, r.Intn(1<<16))
+	}
+	nd := lib.Pick(r, []int{0, 0, 0, 0, 1, 1, 2, 3, 4, 5})
+	nm := lib.Pick(r, []int{0, 0, 0, 1, 1, 2, 3})
+	if p.noMigrate {
+		nm = 0
+	}
+	for _, i := range permOf(r, len(p.classes)) {
+		ch := p.classes[i]
+		if _, ok := a.classes[ch]; !ok && len(b.Declared) < nd {
+			if b.Declared == nil {
+				b.Declared = map[string]string{}
+			}
+			b.Declared[ch] = casm("ca5a")
+		}
+	}
+	for _, i := range permOf(r, len(p.classes)) {
+		ch := p.classes[i]
+		_, old := a.classes[ch]
+		_, now := b.Declared[ch]
+		// (a class declared by this very diff may be migrated by it too: both backends write the declared leaf
+		// first and the migrated one over it)
+		if (old || (now && r.Chance(1, 3))) && len(b.Migrated) < nm {
+			if b.Migrated == nil {
+				b.Migrated = map[string]string{}
+			}
+			b.Migrated[ch] = casm("ca5b")
 		}
 	}
 	return b
@@ -1056,6 +1224,8 @@ var discardModes = []string{"close", "close", "simulate", "simulate", "badroot",
 func genStateCase(r *lib.RNG, nBlocks int) *StateCase {
 	c := &StateCase{}
 	p := genPools(r)
+	p.noMigrate = r.Chance(1, 2)
+	c.Restarts = r.Chance(1, 3)
 	a := newAbs()
 	// one protocol-version regime per case, sometimes switching once
 	ver, vi := pickVersionFrom(r, 0)
@@ -1100,10 +1270,82 @@ func genLargeStateCase(r *lib.RNG) *StateCase {
 	c := &StateCase{Blocks: []SBlock{{Version: ver, Deployed: map[string]string{"abc": "c1a55"}, Storage: map[string]map[string]string{"abc": st}}}}
 	for n := 0; n < 3; n++ {
 		st2 := map[string]string{}
-		for i, m := 0, r.Range(5, 30); i < m; i++ {
-			st2[lib.Pick(r, keys).Text(16)] = genVal(r)
+		m := r.Range(5, 30)
+		if n == 1 {
+			// a second LARGE diff on the stored trie: > 100 overwrites / zero writes of old slots and new slots
+			m = r.Range(110, 170)
+		}
+		for i := 0; i < m; i++ {
+			k := lib.Pick(r, keys).Text(16)
+			if n == 1 && r.Chance(1, 8) {
+				k = randBits(r, 251).Text(16)
+			}
+			v := genVal(r)
+			if n == 1 && r.Chance(1, 3) {
+				v = "0"
+			}
+			st2[k] = v
 		}
 		c.Blocks = append(c.Blocks, SBlock{Version: ver, Storage: map[string]map[string]string{"abc": st2}})
+	}
+	return c
+}
+
+// many contracts touched by ONE block (> 100: parallel hashing / node collection of the CONTRACT trie, the merge
+// of > 100 storage node sets, more state objects than worker goroutines), then blocks that touch a few of them
+func genManyContractsCase(r *lib.RNG) *StateCase {
+	ver, _ := pickVersionFrom(r, 0)
+	addrs := genKeyPool(r, 251, r.Range(110, 160))
+	b0 := SBlock{Version: ver, Deployed: map[string]string{}, Storage: map[string]map[string]string{}, Nonces: map[string]string{},
+		Declared: map[string]string{"c1a55": "ca5a1", "c1a56": "ca5a2"}}
+	var live []string
+	seen := map[string]bool{}
+	for _, a := range addrs {
+		if a.Cmp(big.NewInt(2)) <= 0 || seen[a.Text(16)] {
+			continue
+		}
+		seen[a.Text(16)] = true
+		ad := a.Text(16)
+		live = append(live, ad)
+		b0.Deployed[ad] = lib.Pick(r, []string{"c1a55", "c1a56"})
+		if r.Chance(2, 3) {
+			st := map[string]string{}
+			for i, m := 0, r.Range(1, 3); i < m; i++ {
+				v := genVal(r)
+				if v == "0" {
+					v = "4"
+				}
+				st[fmt.Sprintf("%x", r.Intn(6))] = v
+			}
+			b0.Storage[ad] = st
+		}
+		if r.Chance(1, 4) {
+			b0.Nonces[ad] = "1"
+		}
+	}
+	// ... and more than 100 class-trie leaves written by the same block (parallel paths of the CLASS trie)
+	if r.Bool() {
+		for i, k := range genKeyPool(r, 251, r.Range(105, 130)) {
+			if k.Sign() != 0 {
+				b0.Declared[k.Text(16)] = fmt.Sprintf("ca5c%04x", i)
+			}
+		}
+	}
+	c := &StateCase{Blocks: []SBlock{b0}, Restarts: r.Bool()}
+	for n := 0; n < 2; n++ {
+		b := SBlock{Version: ver, Storage: map[string]map[string]string{}, Nonces: map[string]string{}}
+		for i, m := 0, r.Range(3, 40); i < m; i++ {
+			ad := lib.Pick(r, live)
+			if r.Chance(1, 3) {
+				b.Nonces[ad] = lib.Pick(r, []string{"2", "3", feltPm1})
+			} else {
+				b.Storage[ad] = map[string]string{fmt.Sprintf("%x", r.Intn(6)): genVal(r)}
+			}
+		}
+		if len(b0.Declared) > 100 && n == 1 {
+			b.Declared = map[string]string{"c1a57": "ca5a7"}
+		}
+		c.Blocks = append(c.Blocks, b)
 	}
 	return c
 }
@@ -1145,6 +1387,29 @@ func directedStateCases() []*StateCase {
 				}})
 			}
 		}
+		// several class-trie leaves written by ONE update: two / five declarations, declaration + migration of
+		// another class, two migrations; and the same classes declared one per block
+		five := map[string]string{"c1a51": "ca5a1", "c1a52": "ca5a2", "c1a53": "ca5a3", "c1a54": "ca5a4", "7ff": feltPm1}
+		out = append(out, &StateCase{Blocks: []SBlock{{Version: ver, Declared: map[string]string{"c1a51": "ca5a1", "c1a52": "ca5a2"}}}})
+		out = append(out, &StateCase{Blocks: []SBlock{{Version: ver, Declared: five}}})
+		out = append(out, &StateCase{Blocks: []SBlock{
+			{Version: ver, Declared: map[string]string{"c1a51": "ca5a1", "c1a52": "ca5a2"}},
+			{Version: ver, Declared: map[string]string{"c1a53": "ca5a3"}, Migrated: map[string]string{"c1a51": "ca5b1"}},
+			{Version: ver, Migrated: map[string]string{"c1a52": "ca5b2", "c1a53": "ca5b3"}},
+			{Version: ver, Deployed: map[string]string{"abc": "c1a51"}, Migrated: map[string]string{"c1a51": "ca5b4", "c1a52": "ca5b5", "c1a53": "ca5b6"}, Declared: map[string]string{"c1a54": "ca5a4", "7ff": "ca5a5"}},
+		}})
+		{
+			var split []SBlock
+			for _, ch := range []string{"c1a51", "c1a52", "c1a53", "c1a54", "7ff"} {
+				split = append(split, SBlock{Version: ver, Declared: map[string]string{ch: five[ch]}})
+			}
+			out = append(out, &StateCase{Blocks: split})
+		}
+		// a class declared and migrated by the same diff; migrated again later
+		out = append(out, &StateCase{Blocks: []SBlock{
+			{Version: ver, Declared: map[string]string{"c1a55": "ca5a1"}, Migrated: map[string]string{"c1a55": "ca5b1"}},
+			{Version: ver, Migrated: map[string]string{"c1a55": "ca5b2"}, Declared: map[string]string{"c1a56": "ca5a2"}},
+		}})
 		// empty first block, class only, contract only
 		out = append(out, &StateCase{Blocks: []SBlock{{Version: ver}, {Version: ver, Declared: map[string]string{"c1a55": "ca5a1"}}}})
 		out = append(out, &StateCase{Blocks: []SBlock{{Version: ver, Deployed: map[string]string{"abc": "c1a55"}}}})
@@ -1319,6 +1584,147 @@ func checkStateCases(f lib.Flags, res *lib.Result, drv *lib.Driver, cases []*Sta
 			answers[v] = a
 		}
 	}
+	// round 4: further models of the same histories — (a) the state model on tries reopened from the node
+	// database for every block, (b) what the node stores per block through Finalise, (c) through Store
+	type xoff struct {
+		l, fN, fO, sN, sO         int   // offsets into xans (-1 = not asked)
+		lIdx, fNi, fOi, sNi, sOi []int // line index of every block
+	}
+	xo := make([]xoff, len(cases))
+	var xans []string
+	if drv != nil {
+		var all []string
+		for i, c := range cases {
+			o := &outs[i]
+			x := xoff{l: -1, fN: -1, fO: -1, sN: -1, sO: -1}
+			add := func(off *int, idx *[]int, ls []string, ix []int) {
+				*off = len(all)
+				*idx = ix
+				all = append(all, ls...)
+			}
+			if o.nw.Err == "" {
+				ls, ix := stateLModelLines(c, 0)
+				add(&x.l, &x.lIdx, ls, ix)
+			}
+			if o.chN != nil && o.chN.Err == "" {
+				ls, ix := chainFinModelLines(c, 0, finaliseFixedVariant[0], true)
+				add(&x.fN, &x.fNi, ls, ix)
+			}
+			if o.chO != nil && o.chO.Err == "" {
+				ls, ix := chainFinModelLines(c, 0, finaliseFixedVariant[1], legacyPurgeVariant)
+				add(&x.fO, &x.fOi, ls, ix)
+			}
+			if o.stN != nil && o.stN.Err == "" {
+				ls, ix := chainStoreModelLines(c, 0, oldFixedVariant[0], true, o.stN)
+				add(&x.sN, &x.sNi, ls, ix)
+			}
+			if o.stO != nil && o.stO.Err == "" {
+				ls, ix := chainStoreModelLines(c, 0, oldFixedVariant[1], legacyPurgeVariant, o.stO)
+				add(&x.sO, &x.sOi, ls, ix)
+			}
+			xo[i] = x
+		}
+		a, err := drv.AskAll(all)
+		if err != nil {
+			res.Fatalf("Lean driver died / answered short in family %s (round-4 models): %v", family, err)
+			a = nil
+		}
+		xans = a
+	}
+	// three terms "root old new" of a chain-model answer against the stored values
+	cmpStored := func(sig string, c *StateCase, n int, ans, root, old, new string) bool {
+		res.Compared(1)
+		fs := strings.Fields(ans)
+		if len(fs) != 3 {
+			res.Mismatch(lib.Mismatch{Sig: sig, Input: c, Model: fmt.Sprintf("block %d: %s", n, clip(ans)), Impl: fmt.Sprintf("root %s old %s new %s", root, old, new)})
+			return false
+		}
+		for j, want := range []string{root, old, new} {
+			v, err := evalTerm(fs[j])
+			if err != nil || feltHex(&v) != want {
+				res.Mismatch(lib.Mismatch{Sig: sig, Input: c, Model: fmt.Sprintf("block %d field %d (root/old/new): %s = %s", n, j, feltHex(&v), clip(fs[j])), Impl: want})
+				return false
+			}
+		}
+		return true
+	}
+	xcmp := func(i int, c *StateCase) {
+		if xans == nil {
+			return
+		}
+		o := &outs[i]
+		x := xo[i]
+		if x.l >= 0 {
+			for n := range c.Blocks {
+				a := xans[x.l+x.lIdx[n]]
+				res.Compared(1)
+				v, err := evalTerm(a)
+				if err != nil || feltHex(&v) != at(o.nw.Roots, n) {
+					res.Mismatch(lib.Mismatch{Sig: "state-root-on-reopened-tries", Input: c, Model: fmt.Sprintf("block %d: %s", n, clip(a)), Impl: at(o.nw.Roots, n)})
+					break
+				}
+			}
+			res.Hit("state:model-on-reopened-tries")
+		}
+		for _, ch := range []struct {
+			off int
+			idx []int
+			t   *trace
+			sig string
+		}{{x.fN, x.fNi, o.chN, "finalise-stored-roots-new-state"}, {x.fO, x.fOi, o.chO, "finalise-stored-roots-legacy-state"}} {
+			if ch.off < 0 {
+				continue
+			}
+			res.Hit("state:chain-model-finalise")
+			for n := range c.Blocks {
+				if !cmpStored(ch.sig, c, n, xans[ch.off+ch.idx[n]], at(ch.t.Roots, n), at(ch.t.StoredOld, n), at(ch.t.StoredNew, n)) {
+					break
+				}
+			}
+		}
+		for _, ch := range []struct {
+			off int
+			idx []int
+			t   *trace
+			sig string
+		}{{x.sN, x.sNi, o.stN, "store-stored-roots-new-state"}, {x.sO, x.sOi, o.stO, "store-stored-roots-legacy-state"}} {
+			if ch.off < 0 {
+				continue
+			}
+			res.Hit("state:chain-model-store")
+			rej := map[int]bool{}
+			for _, n := range ch.t.OldRej {
+				rej[n] = true
+			}
+			for n := range ch.idx {
+				base := ch.off + ch.idx[n]
+				res.Compared(2)
+				if xans[base] != "rejected" {
+					res.Mismatch(lib.Mismatch{Sig: ch.sig, Input: c, Model: fmt.Sprintf("block %d with a wrong new root: %s", n, clip(xans[base])), Impl: "rejected"})
+					break
+				}
+				if (xans[base+1] == "rejected") != rej[n] {
+					res.Mismatch(lib.Mismatch{Sig: ch.sig, Input: c, Model: fmt.Sprintf("block %d with the stored previous root as old root: %s", n, clip(xans[base+1])), Impl: fmt.Sprintf("rejected blocks %v", ch.t.OldRej)})
+					break
+				}
+				acc := xans[base+1]
+				if rej[n] {
+					acc = xans[base+2]
+					if n >= len(ch.t.StoredOld) {
+						// the node rejected the block with the recomputed old root as well: so must the model
+						res.Compared(1)
+						if acc != "rejected" {
+							res.Mismatch(lib.Mismatch{Sig: ch.sig, Input: c, Model: fmt.Sprintf("block %d with the recomputed old root: %s", n, clip(acc)), Impl: "rejected"})
+						}
+						break
+					}
+				}
+				if !cmpStored(ch.sig, c, n, acc, at(ch.t.Roots, n), at(ch.t.StoredOld, n), at(ch.t.StoredNew, n)) {
+					break
+				}
+			}
+		}
+	}
 	cmp := func(sig string, ci int, c *StateCase, ans []string, off int, impl trace) {
 		if ans == nil || impl.Err != "" {
 			return
@@ -1369,6 +1775,7 @@ func checkStateCases(f lib.Flags, res *lib.Result, drv *lib.Driver, cases []*Sta
 		if drv != nil {
 			cmp("state-root", i, c, answers[0], offs[i], o.nw)
 			cmp("deprecatedstate-root", i, c, answers[1], offs[i], o.old)
+			xcmp(i, c)
 		}
 		key, _ := json.Marshal(c)
 		res.Case(string(key), len(c.Blocks) >= 2)
@@ -1651,6 +2058,28 @@ func checkStateCases(f lib.Flags, res *lib.Result, drv *lib.Driver, cases []*Sta
 }
 
 func classifyState(res *lib.Result, c *StateCase) {
+	if c.Restarts {
+		res.Hit("state:restart-before-every-block(new StateDB / Blockchain objects)")
+	}
+	for n := range c.Blocks {
+		if k := len(c.Blocks[n].Declared) + len(c.Blocks[n].Migrated); k >= 2 {
+			res.Hit("state:block-writes-several-class-trie-leaves")
+			if len(c.Blocks[n].Declared) >= 2 {
+				res.Hit("state:block-declares-several-classes")
+			}
+			if len(c.Blocks[n].Migrated) >= 2 {
+				res.Hit("state:block-migrates-several-classes")
+			}
+			if len(c.Blocks[n].Declared) >= 1 && len(c.Blocks[n].Migrated) >= 1 {
+				res.Hit("state:block-declares-and-migrates")
+			}
+		}
+		for ch := range c.Blocks[n].Migrated {
+			if _, both := c.Blocks[n].Declared[ch]; both {
+				res.Hit("state:class-declared-and-migrated-in-one-block")
+			}
+		}
+	}
 	a := newAbs()
 	for n := range c.Blocks {
 		b := &c.Blocks[n]
